@@ -216,10 +216,8 @@ Theorem get_buffer_spec els bs :
   wf_record els = true -> enc_all els = Some bs -> get_buffer els = Ok (bs, 0%nat).
 Proof.
   intros W E. unfold get_buffer. pose proof (enc_all_length els bs W E) as HL.
-  destruct (Nat.eqb_spec (N.to_nat (record_len els)) 0) as [Z|NZ].
-  - destruct bs; [reflexivity|]. cbn [length] in HL. lia.
-  - pose proof (get_buffer_loop_spec els [] (zeros (N.to_nat (record_len els))) [] bs 0%nat W E) as G.
-    cbn [app length] in G. rewrite !app_nil_r in G. apply G. rewrite length_zeros. lia.
+  pose proof (get_buffer_loop_spec els [] (zeros (N.to_nat (record_len els))) [] bs 0%nat W E) as G.
+  cbn [app length] in G. rewrite !app_nil_r in G. apply G. rewrite length_zeros. lia.
 Qed.
 
 (* ---- decoding the encoding gives the value back ---- *)
